@@ -33,7 +33,9 @@ EXPLANATION = (
     "uses the predicate solve() already checked; K11-K13 the parser's second-match / lookahead unreachables repeat the token "
     "set of the first match; K14 detail_if_error! only sees syntax errors; K15 the module list is non-empty and unique; K16 "
     "the path of the main file may have no parent directory; (GUARD) every function that recurses along type-graph edges "
-    "consults a visited set before descending (unification has no occurs check, so the graph may be cyclic); (CENSUS) all "
+    "consults a visited set before descending (unification has no occurs check, so the graph may be cyclic); (UNION-FIND) "
+    "every write of a union-find parent link is dominated by a test that the two nodes differ or happens during path "
+    "compression, so find() cannot cycle; (CENSUS) all "
     "panic-capable sites of the four crates are enumerated and classified (contract / guarded / unreviewed) as evidence."
 )
 UNDECIDED = ("absence of panics at the unreviewed census sites, arithmetic overflow, native stack depth on deeply nested input, "
@@ -58,6 +60,7 @@ def run(F, rep, tier):
     k11_k14(F, rep, contracts)
     k15_k16(F, rep, contracts)
     guard(F, rep)
+    union_find(F, rep)
     census(F, rep, contracts)
 
 
@@ -613,6 +616,87 @@ def guard(F, rep):
     fr = F.fn("sylt_compiler::dependency::order::recurse")
     t = pp(fn_body(fr))
     rep.ob("GUARD", "dependency::recurse", "inserted.entry(" in t and "State::Inserting" in t, "the dependency ordering marks nodes before recursing", fr["sp"])
+
+
+# --------------------------------------------------------------------------- UNION-FIND
+
+def union_find(F, rep):
+    """The type nodes form a union-find forest; find() terminates only if parent links are acyclic.  Every write of a
+    `parent` link must therefore be dominated by a test that the two nodes differ (union: early return on a == b), or
+    happen inside `while let Some(next) = types[node].parent` for that same node (path compression towards the root)."""
+    n = 0
+    for fn in F.fns_in("sylt_compiler::typechecker::"):
+        body = fn_body(fn)
+        for a, parents in walk(body):
+            if a.get("k") != "Assign":
+                continue
+            l = peel(a["l"])
+            if not (l.get("k") == "Field" and l["name"] == "parent" and "TypeNode" in l.get("base_ty", "")):
+                continue
+            n += 1
+            idx = peel(l["e"])
+            child = peel(idx["i"]) if idx.get("k") == "Index" else None
+            r = peel(a["r"])
+            target = None
+            for x in nodes(r, "Path"):
+                if x.get("res") == "Local":
+                    target = x
+            key = "%s|parent-link" % last(fn["_path"])
+            if child is None or target is None or child.get("k") != "Path":
+                rep.ob("UNION-FIND", key, peel(r).get("k") == "Path" and norm_path(peel(r).get("path", "")).endswith("Option::None"),
+                       "parent link written with an expression the rule cannot follow (%s)" % pp(a), line_of(a))
+                continue
+            ok = False
+            why = ""
+            # (1) path compression: inside `while let Some(..) = self.types[child].parent`
+            for p in parents:
+                if p.get("k") == "While":
+                    c = peel(p["cond"])
+                    if c.get("k") == "LetCond" and "parent" in pp(c["init"]) and any(
+                            x.get("hid") == child.get("hid") for x in nodes(c["init"], "Path")):
+                        ok = True
+                        why = "inside `while let Some(_) = types[%s].parent`: %s is not a root, so it differs from the root it is linked to" % (child["name"], child["name"])
+            # (2) union: an earlier `if x == y { return }` in an enclosing block on values the two locals derive from
+            if not ok:
+                fl = Flow(fn, body)
+                def roots(e):
+                    out = set()
+                    seen = set()
+                    todo = [e.get("hid")]
+                    while todo:
+                        h = todo.pop()
+                        if h in seen or h is None:
+                            continue
+                        seen.add(h)
+                        out.add(h)
+                        o = fl.origin.get(h)
+                        if o and o.get("src") is not None:
+                            for x in nodes(o["src"], "Path"):
+                                if x.get("res") == "Local":
+                                    todo.append(x["hid"])
+                    return out
+                rc, rt = roots(child), roots(target)
+                for p in parents:
+                    if p.get("k") != "Block":
+                        continue
+                    for st in p["stmts"]:
+                        e = peel(st.get("e") or st.get("init") or {})
+                        if any(x is a for x in nodes(e)):
+                            break
+                        if e.get("k") == "If":
+                            c = peel(e["c"])
+                            if c.get("k") == "Binary" and c.get("op") == "Eq":
+                                hl, hr = peel(c["l"]).get("hid"), peel(c["r"]).get("hid")
+                                returns = any(x.get("k") == "Ret" for x in nodes(e["t"]))
+                                if returns and ((hl in rc and hr in rt) or (hl in rt and hr in rc)) and hl != hr:
+                                    ok = True
+                                    why = "after `if %s == %s { return }`" % (peel(c["l"]).get("name"), peel(c["r"]).get("name"))
+            rep.ob("UNION-FIND", key, ok,
+                   ("parent link %s <- %s is written %s" % (child["name"], target["name"], why)) if ok else
+                   ("parent link `types[%s].parent = Some(%s)` is written without a preceding test that the two nodes differ: when "
+                    "both are the same root (possible after the recursive unification of a self-referential type) the node becomes "
+                    "its own parent and every later find() loops forever" % (child["name"], target["name"])), line_of(a))
+    rep.floor("UNION-FIND", "writes of TypeNode.parent", n, 2)
 
 
 # --------------------------------------------------------------------------- census
